@@ -167,51 +167,8 @@ func c05() {
 	distinct := map[string]bool{}
 	maxLen, maxChecked := 0, 0
 
-	vlib.Parallel(total, func(i int) {
-		r := caseRand(run, i)
-		var tp tpolicy
-		switch {
-		case i < nCat:
-			tp = cases[i]
-		case i < nCat+nRandom:
-			t := ts[i%len(ts)]
-			switch i % 4 {
-			case 0:
-				tp = tpolicy{t, vlib.GenNamesOnly(r, t, r.Intn(3), append(append([]seccomp.Action{}, vlib.NamedActions...), vlib.RetUserNotif, seccomp.Action(r.Uint32())), vlib.NamedActions), "names-only"}
-			case 1:
-				mp := vlib.DefaultMixed()
-				mp.LongListChance, mp.BigNamesChance = 2, 3
-				tp = tpolicy{t, vlib.GenMixed(r, t, mp), "mixed-long"}
-			default:
-				tp = tpolicy{t, vlib.GenMixed(r, t, vlib.DefaultMixed()), "mixed"}
-			}
-			if i%9 == 5 {
-				run.Count("policies_with_data_bits_in_group_actions", 1)
-				vlib.WithDataBits(r, tp.p)
-			}
-		default:
-			sc := sizedCases[i-nCat-nRandom]
-			p := sizedPolicy(sc.t, sc.target, sc.variant)
-			// fine-tune with single names until the program reaches the target
-			names := sc.t.Names
-			next := 250
-			for step := 0; step < 12; step++ {
-				c := vlib.Compile(vlib.SpecOf(p, sc.t.Name).Policy(), sc.t)
-				if !c.OK() || len(c.Raw) >= sc.target {
-					break
-				}
-				// one instruction per name; bridges may add a few more, so approach from below
-				add := sc.target - len(c.Raw)
-				if add > 8 {
-					add -= add / 8
-				}
-				for a := 0; a < add && next < len(names); a++ {
-					p.Syscalls[0].Names = append(p.Syscalls[0].Names, names[next])
-					next++
-				}
-			}
-			tp = tpolicy{sc.t, p, "near-4096"}
-		}
+	var judgeOne func(tp tpolicy, i int)
+	judgeOne = func(tp tpolicy, i int) {
 		t, p := tp.t, tp.p
 		spec := vlib.SpecOf(p, t.Name)
 		c := vlib.Compile(p, t)
@@ -291,6 +248,85 @@ func c05() {
 		}
 		if tp.kind == "degenerate:all-groups-empty" {
 			run.Sample(3, map[string]any{"kind": tp.kind, "arch": t.Name, "program": vlib.DumpRaw(c.Raw), "policy": spec.Brief()})
+		}
+	}
+
+	vlib.Parallel(total, func(i int) {
+		r := caseRand(run, i)
+		var tp tpolicy
+		switch {
+		case i < nCat:
+			tp = cases[i]
+		case i < nCat+nRandom:
+			t := ts[i%len(ts)]
+			switch i % 4 {
+			case 0:
+				tp = tpolicy{t, vlib.GenNamesOnly(r, t, r.Intn(3), append(append([]seccomp.Action{}, vlib.NamedActions...), vlib.RetUserNotif, seccomp.Action(r.Uint32())), vlib.NamedActions), "names-only"}
+			case 1:
+				mp := vlib.DefaultMixed()
+				mp.LongListChance, mp.BigNamesChance = 2, 3
+				tp = tpolicy{t, vlib.GenMixed(r, t, mp), "mixed-long"}
+			default:
+				tp = tpolicy{t, vlib.GenMixed(r, t, vlib.DefaultMixed()), "mixed"}
+			}
+			if i%9 == 5 {
+				run.Count("policies_with_data_bits_in_group_actions", 1)
+				vlib.WithDataBits(r, tp.p)
+			}
+		default:
+			sc := sizedCases[i-nCat-nRandom]
+			p := sizedPolicy(sc.t, sc.target, sc.variant)
+			// fine-tune with single names until the program reaches the target
+			names := sc.t.Names
+			next := 250
+			for step := 0; step < 12; step++ {
+				c := vlib.Compile(vlib.SpecOf(p, sc.t.Name).Policy(), sc.t)
+				if !c.OK() || len(c.Raw) >= sc.target {
+					break
+				}
+				// one instruction per name; bridges may add a few more, so approach from below
+				add := sc.target - len(c.Raw)
+				if add > 8 {
+					add -= add / 8
+				}
+				for a := 0; a < add && next < len(names); a++ {
+					p.Syscalls[0].Names = append(p.Syscalls[0].Names, names[next])
+					next++
+				}
+			}
+			tp = tpolicy{sc.t, p, "near-4096"}
+		}
+		judgeOne(tp, i)
+		// relatives built from the same group storage, as a caller gets who keeps his groups in one list and builds several
+		// policies from it: prefixes and suffixes of the assembled policy's group list (sub-slices: the very same group
+		// values), the list with its last group dropped in place, single groups and the reversed list as value copies. Each
+		// is a policy of its own and what it compiles to must be a valid filter, whatever was compiled before
+		if n := len(tp.p.Syscalls); n >= 2 && i%3 == 1 && tp.kind != "near-4096" {
+			run.Count("policies_whose_groups_are_reused_in_further_policies", 1)
+			groups := tp.p.Syscalls
+			rel := func(gs []seccomp.SyscallGroup, how string) {
+				run.Count("relatives_built_from_assembled_groups", 1)
+				judgeOne(tpolicy{tp.t, &seccomp.Policy{DefaultAction: tp.p.DefaultAction, Syscalls: gs}, tp.kind + "+" + how}, i)
+			}
+			ks := []int{1, n - 1, 1 + r.Intn(n-1)}
+			for j, k := range ks {
+				if j > 0 && k == ks[j-1] {
+					continue
+				}
+				rel(groups[:k], "prefix-of-assembled")
+				rel(groups[k:], "suffix-of-assembled")
+			}
+			j := r.Intn(n)
+			rel([]seccomp.SyscallGroup{groups[j]}, "single-group-copied-out")
+			rev := make([]seccomp.SyscallGroup, n)
+			for k := range groups {
+				rev[n-1-k] = groups[k]
+			}
+			rel(rev, "reversed-copies")
+			tp.p.Syscalls = groups[:n-1]
+			judgeOne(tpolicy{tp.t, tp.p, tp.kind + "+last-group-dropped-in-place"}, i)
+			tp.p.Syscalls = groups
+			judgeOne(tpolicy{tp.t, tp.p, tp.kind + "+restored"}, i)
 		}
 	})
 	// policies carrying a defect (C07's injections): whenever the compiler accepts one anyway, what it emits must still be a valid filter
